@@ -539,3 +539,32 @@ func HandsOutPooled(data []byte) []byte {
 	buf.Write(data)
 	return buf.Bytes()
 }
+
+// Token.IsWord violates R6.13: the text is compared without looking at the kind of token.
+type Token struct {
+	Type  int
+	Value []byte
+}
+
+func IsWord(t *Token, w string) bool { return t != nil && string(t.Value) == w }
+
+func AtStream(t *Token) bool { return IsWord(t, "stream") }
+
+// Painter violates RX.MI: forms are remembered by name, but names are looked up in res, which SetRes replaces.
+type Painter struct {
+	res   map[string]string
+	forms map[string][]string
+}
+
+func (p *Painter) SetRes(res map[string]string) { p.res = res }
+
+func (p *Painter) load(name string) []string { return strings.Fields(p.res[name]) }
+
+func (p *Painter) Form(name string) []string {
+	if f, ok := p.forms[name]; ok {
+		return f
+	}
+	f := p.load(name)
+	p.forms[name] = f
+	return f
+}
